@@ -76,6 +76,11 @@ def parseTxs (s : String) : Option (List Tx) :=
 
 def natOf (toks : List String) (k : String) : Option Nat := (kv toks k).bind String.toNat?
 
+/-- The notifications of `connectBranch`, one group per block. -/
+def branchGroups (C : Content) (m : TxMode) : BlockId → List Nat → List (List Ntfn)
+  | _, [] => []
+  | base, n :: br => connectNtfns C m (n :: base) :: branchGroups C m (n :: base) br
+
 /-- Apply an evolution step: notifications only when the wallet is running. -/
 def applyStep (s : St) (st : Step) : St :=
   let tip' := stepTip s.tip st
@@ -128,8 +133,23 @@ def step (s : St) (line : String) : St × String :=
               | some bi => if bi.bid == n :: b then some bi.bid else none
               | none => none) (some base)).isSome
         if d ≤ s.tip.length && okBr then
-          let s' := applyStep s (.reorg d br m)
-          (s', showState s')
+          match kv rest "rfin" with
+          | none =>
+            let s' := applyStep s (.reorg d br m)
+            (s', showState s')
+          | some ks =>
+            -- RescanFinished of the rescan in flight arrives after the first k block events of this reorg; the
+            -- backend is already on the new branch (`rescanInFlight` with pre/post = the two parts)
+            match ks.toNat?, s.inflight with
+            | some k, some n =>
+              if !s.running || !s.connected || k > d + br.length then (s, "bad-op") else
+              let tip' := stepTip s.tip (.reorg d br m)
+              let groups := (disconnectNtfns s.content s.tip d).map (fun x => [x]) ++ branchGroups s.content m base br
+              let ns := (groups.take k).flatten ++ [Ntfn.rescanFinished tip' n] ++ (groups.drop k).flatten
+              let p := processN s.cfg (s.w, s.n) ns
+              let s' := { s with w := p.1, n := p.2, tip := tip', inflight := none }
+              (s', showState s')
+            | _, _ => (s, "bad-op")
         else (s, "bad-op")
       | _, _, _ => (s, "bad-op")
     | "stale" =>
